@@ -57,6 +57,20 @@ CHECKS = {
         note=TL_NOTE + " Stage ibc adds bridge Ics20Withdrawal / unlock event-id reuse on a chain with an open IBC channel.",
         design_ref="2 C04",
     ),
+    "C10": dict(
+        category="model_checking",
+        technique="explicit-state BFS over soft/firm delivery interleavings, each history replayed on the real conductor executor against a logging fake rollup (loopback gRPC)",
+        text=("BFS over every interleaving of <= 11 (thorough 16) events from {soft reader delivers block k, firm reader delivers block k "
+              "(window of 4 heights; any delivery that is not the stream's next block - duplicate, stale, skip-ahead - is a deviation, at most "
+              "2 (thorough 3) per history), soft reader syncs to the executor's height (drop_obsolete), executor takes next soft block (only "
+              "while the real is_spread_too_large() is false), executor takes next firm block} for commit levels SoftAndFirm / SoftOnly / "
+              "FirmOnly, look-ahead 1, 2 (thorough 16) and several session start offsets. Each state is the history replayed on a fresh real "
+              "executor::Initialized (two real BlockCaches, execute_soft / execute_firm, real gRPC Client). Oracle on the fake rollup's RPC "
+              "log: exactly one ExecuteBlock per sequencer height, strictly in order, each on the block of the previous height; commitments "
+              "monotone, firm <= soft, each naming the block executed at that number; in-order streams never stop the executor."),
+        note="Reader select loops are mirrored by the harness (insert into the real BlockCache, forward sequential blocks); channel capacities, stop heights / session restarts and rollup errors are not in the alphabet.",
+        design_ref="2 C10",
+    ),
     "C12": dict(
         category="model_checking",
         technique="explicit-state BFS over the real NextSubmission / BlobSubmitter pending-block logic with conductor-style decoding of every submission",
